@@ -14,7 +14,7 @@ ID = "C03"
 LEVEL = "exploration"
 BUILDS = {"quick": ["rel"], "thorough": ["rel", "asan"]}
 OPTIONAL_BUILDS = ["asan"]
-BUDGET_S = {"quick": 150, "thorough": 2400}
+BUDGET_S = {"quick": 600, "thorough": 2400}
 RULE = ("Files are generated per registered suffix from that language's comment forms (line, block, "
         "decorated-star, doc, Markdown link, HTML), code lines and decoy tags in strings/markup, with "
         "nesting <=4, tags alone / after prose / on line k of n / several per comment (start+end, two starts, two ends) / followed by code, "
